@@ -79,7 +79,8 @@ def _gen(rng, tier):
     pastify = any(x[0] in sg.FUTURE_OPS for x in sg.walk(ast)) or rng.random() < 0.1
     signals = {}
     late = rng.random() < 0.3          # sensors that come up at different instants
-    epoch_q = 4 * 1700000000 if rng.random() < 0.1 else 0     # stamps are wall-clock seconds since 1970 (still exact quarters)
+    # stamps are wall-clock seconds since 1970, or microseconds since 1970 (2**50, where a quarter is the float spacing): still exact
+    epoch_q = rng.choice([4 * 1700000000, 4 * 2 ** 50]) if rng.random() < 0.12 else 0
     style = 'nano' if rng.random() < 0.1 else None
     for v in vars_:
         s, _ = world.gen_dense_signal(rng, rng.randint(2, 12 if big else 8), start_q=epoch_q + (rng.randint(0, 6) if late else 0), max_gap_q=rng.choice([2, 4, 6]),
